@@ -31,6 +31,7 @@ def run(check: Check, repo: Repo, tier: str) -> None:
     L.strip_always_lexes(check, repo)
     L.hex_digit_table(check, repo)
     L.number_lookahead(check, repo)
+    L.number_parts(check, repo)
     lt_agree.check_lt_agree(check, repo, scope=SCOPE)
     check.floor("LT-AGREE", 2, "line-splitting constructs")
     lt_agree.lexer_newline_tests(check, repo)
